@@ -42,7 +42,7 @@ pub fn scenario_main(behav: &str, pad: usize, big: bool) -> i32 {
     0
 }
 
-fn run_with_watchdog(mut cmd: Command, timeout: Duration) -> (bool, String, f64) {
+pub fn run_with_watchdog(mut cmd: Command, timeout: Duration) -> (bool, String, f64) {
     use std::os::unix::process::CommandExt;
     cmd.stdout(Stdio::piped()).stderr(Stdio::null()).stdin(Stdio::null()).process_group(0);
     let start = Instant::now();
@@ -135,7 +135,7 @@ fn run_spin(variant: u8, capin: u8, capout: u8, want_trails: bool) -> Result<Spi
 }
 
 /// expected verdict kinds of a scenario under the required order
-fn expected_kinds(behav: &str) -> &'static [&'static str] {
+pub fn expected_kinds(behav: &str) -> &'static [&'static str] {
     match behav {
         "readall" | "interleave" | "writefirst" | "noread" => &["unsat"],
         // no status line reaches the parent: undecided, or abort
